@@ -55,7 +55,7 @@ SPELLINGS = ['12', '13', 'star', '6-rows', '6-cols', '5', '6-rows-13',
              '6-rows-23', '6-cols-13', '6-cols-23', '5-r2c3', '5-r3c1',
              '5-r1c2', '13-jumps', '6-rows-12', '6-cols-12']
 
-_PER = {'quick': 5, 'thorough': 120}
+_PER = {'quick': 5, 'thorough': 300}
 
 
 def attach_monitors():
